@@ -559,6 +559,8 @@ func (db *Backend) ListBucketVersions(
 			cnt++
 			if page.MaxKeys > 0 && cnt >= page.MaxKeys {
 				truncated = versions.Next()
+				result.NextKeyMarker = version.name
+				result.NextVersionIDMarker = version.versionID
 				goto done
 			}
 		}
@@ -566,6 +568,9 @@ func (db *Backend) ListBucketVersions(
 
 done:
 	result.IsTruncated = truncated || iter.Next()
+	if !result.IsTruncated {
+		result.NextKeyMarker, result.NextVersionIDMarker = "", ""
+	}
 
 	return result, nil
 }
